@@ -229,27 +229,28 @@ def check_session(case, plan):
         done += 1
         fmt = p["fmt"]
         real = real_run(fmt, p["opts"], p["lopts"], tree_py)
-        what = None
+        whats = []
         spec_out = r["out"]
         if not real["dumped"]:
-            what = "dumps-raised"
-        elif fmt == "xml" and p["opts"] == p["lopts"] and elem_norm(r["elem"]) != real["elem"]:
-            what = "element"
-        elif spec_out["ok"]:
-            want = want_same if spec_out.get("same") else canon(spec_out["v"])
-            if not real["out"]["ok"]:
-                what = "loads-raised"
-            elif canon(real["out"]["v"]) != want:
-                what = "decoded-differs"
-        elif real["out"]["ok"]:
-            what = "wrong-root-accepted" if fmt == "xml" else "accepted"
-        if what:
+            whats.append("dumps-raised")
+        else:
+            if spec_out["ok"]:
+                want = want_same if spec_out.get("same") else canon(spec_out["v"])
+                if not real["out"]["ok"]:
+                    whats.append("loads-raised")
+                elif canon(real["out"]["v"]) != want:
+                    whats.append("decoded-differs")
+            elif real["out"]["ok"]:
+                whats.append("wrong-root-accepted" if fmt == "xml" else "accepted")
+            if fmt == "xml" and p["opts"] == p["lopts"] and elem_norm(r["elem"]) != real["elem"]:
+                whats.append("element")
+        for what in whats:
             problems.append(
                 {
                     "signature": "conf:%s:%s" % (fmt, what),
                     "summary": "spec->code: %s %s / loads %s on tree %s: %s (spec: %s, code: %s)"
                     % (fmt, kwargs(fmt, p["opts"]), kwargs(fmt, p["lopts"]), short(tree_py, 120), what,
-                       short(spec_out if not spec_out.get("same") else "the same tree", 100),
+                       short((spec_out if not spec_out.get("same") else "the same tree") if what != "element" else elem_norm(r["elem"]), 200),
                        short(real["out"] if what != "element" else real["elem"], 200)),
                     "replay": {"kind": "format-session-run", "tree": t, "fmt": fmt, "opts": p["opts"], "lopts": p["lopts"],
                                "spec": r, "code": {k: (v if k != "doc" else v.decode("latin-1")) for k, v in real.items()}},
@@ -461,9 +462,22 @@ def O(pretty=True, root_tag="config", root_key=None):
     return {"pretty": pretty, "root_tag": list(root_tag), "root_key": to_abs(root_key)}
 
 
-def driver(seed, n):
-    """Seeded random trees through the real formats; one logged case per tree."""
-    rng = random.Random(seed)
+def driver(seed, n, procs=1):
+    """Seeded random trees through the real formats; one logged case per tree.  The work is
+    split into fixed blocks of 250 cases, block k seeded with (seed, k), so the result does not
+    depend on the number of processes."""
+    blocks = [(seed, k, min(250, n - k * 250)) for k in range((n + 249) // 250)]
+    if procs > 1:
+        with multiprocessing.get_context("fork").Pool(procs) as pool:
+            parts = pool.map(_driver_block, blocks)
+    else:
+        parts = [_driver_block(b) for b in blocks]
+    return [c for part in parts for c in part]
+
+
+def _driver_block(args):
+    seed, k, n = args
+    rng = random.Random(seed * 1000003 + k)
     cases = []
     for _ in range(n):
         xml = rng.random() < 0.6
@@ -538,6 +552,8 @@ def run(tier, seed):
     cfg = "MC_Formats_%s.cfg" % tier
     procs = 8 if tier == "quick" else 12
 
+    timer = common.Timer()
+    phases = {}
     # (a) TLC on the specification instance, exporting every complete session
     res = tlc.run("MC_Formats.tla", cfg, workers=16, env=JVM, keep=("PLAN",), timeout=3000)
     if not res.ok:
@@ -546,6 +562,7 @@ def run(tier, seed):
             "TLC: %s violated on the FormatLab instance %s" % (res.violation, cfg),
             {"kind": "tlc-counterexample", "predicate": res.violation, "behaviour": res.cex},
         )
+    phases["tlc_model_check_and_export"] = round(timer.elapsed(), 1)
     starts = sum(1 for ln in res.stdout.splitlines() if ln.startswith('<<"INIT"'))
     plan = res.printed.get("PLAN", [None])[0]
     if plan is None:
@@ -560,6 +577,7 @@ def run(tier, seed):
         if s2c["sessions"] != starts:
             raise tlc.TLCError("export incomplete: %d sessions started, %d exported" % (starts, s2c["sessions"]))
     res.stdout = ""
+    phases["spec_to_code"] = round(timer.elapsed(), 1)
     for p in s2c["problems"][:40]:
         out.violation(p["signature"], p["summary"], p["replay"])
     if res.ok and (s2c["runs"] == 0 or s2c["wrongroot_rejected"] == 0 or len(s2c["by_fmt"]) != 5):
@@ -569,7 +587,8 @@ def run(tier, seed):
 
     # (c) code -> spec
     n_rand = 1500 if tier == "quick" else 30000
-    cases = driver(seed, n_rand)
+    cases = driver(seed, n_rand, procs)
+    phases["driver"] = round(timer.elapsed(), 1)
     bad, tstates, tchecked = validate_traces(cases, 500 if tier == "quick" else 2500, 4)
     for case, flags in bad[:40]:
         names = sorted(set(f["c"] for f in flags))
@@ -582,12 +601,14 @@ def run(tier, seed):
                                                    "" if r is None else " (first: %s %s -> %s)" % (r["fmt"], kwargs(r["fmt"], r["opts"]), short(r["out"], 160))),
             {"kind": "format-trace", "case": case, "flags": flags},
         )
+    phases["trace_validation"] = round(timer.elapsed(), 1)
     rand_runs = sum(len(c["runs"]) for c in cases)
     out.coverage = {
         "states": res.distinct,
         "transitions": res.generated,
         "exhaustive": bool(res.ok),
         "instance": cfg,
+        "phase_end_wall_s": phases,
         "tree_sessions": s2c["sessions"],
         "xml_documents_hand_written": s2c["elems"],
         "xml_documents_hand_written_unmodelled": s2c["elem_unmodelled"],
